@@ -181,10 +181,13 @@ Definition step (p : policy) (s : state) (l : label) : option (state * obs) :=
   | CloseSender t =>
       let tk := tasks s t in
       if Nat.ltb t (ntasks s) && alive tk && finished tk then
-        (* self.weak = Weak::new(): the weak count drops, NOBODY is woken *)
-        Some (mkState (buf s) (cap s) (sw s) (rw s) (rx s) (rx_woken s) (rx_done s) (ntasks s)
+        (* since /repo commit fdb5498e919: wake_receiver (if the Rc is still there), then
+           self.weak = Weak::new().  (Before: nobody was woken, see ModelMpscOld.v.) *)
+        let fire := match rx s with RxOpen => rw s | _ => false end in
+        Some (mkState (buf s) (cap s) (sw s) (match rx s with RxOpen => false | _ => rw s end)
+                (rx s) (rx_woken s || fire) (rx_done s) (ntasks s)
                 (upd (tasks s) t (mkTask [] [] false (woken tk))) (sent s) (recvd s),
-              OAct [])
+              OAct (if fire then [WRecv] else []))
       else None
   | CloseRx =>
       match rx s with
